@@ -1016,8 +1016,8 @@ func TestVerifC19(t *testing.T) {
 			t.Fatal(err)
 		}
 		for _, ln := range strings.Split(string(raw), "\n") {
-			if strings.TrimSpace(ln) == "" {
-				continue
+			if !strings.HasPrefix(ln, "chat ") {
+				continue // hchat / resolve lines belong to the handler / runner drivers
 			}
 			c, err := c19ParseLine(ln)
 			if err != nil {
